@@ -71,6 +71,14 @@ CLAIMED = {
         note="Trusted: Coq kernel, translator, harness; ThreadPoolExecutor.map ordered; asyncstdlib mirrors; tf.data multiset-preserving (oracle).",
         technique="Coq proof (permutation invariants + termination measures of pull machines) + AST-pinned sources + differential pipelines",
         design="7/C02"),
+    "C12": dict(
+        text="Coq theorems over the selection stages of shard_paths_dataset interpreted in the order and with the guards regenerated from the source: the stages compute the specification "
+             "(predicate; error if empty; first k; at most n per metadata value) for every shard list and option values; the result is a non-empty order-preserving sub-list; no metadata value keeps more than n shards; "
+             "a predicate matching nothing is an error; and the forwarding table regenerated from the keyword arguments of every as_* method shows every accepted selection option is passed to every callee that takes it. "
+             "Tie: model vs shard_paths_dataset on generated metadata layouts; every interface x option values vs the property text evaluated on independently decoded shards.",
+        note="Trusted: Coq kernel, translator, harness; metadata abstracted to naturals; effect of a forwarded option inside tf.data/Rust validated on the implementation only.",
+        technique="Coq proof over AST-generated stage list and forwarding table + differential selection runs on every interface",
+        design="7/C12"),
     "C14": dict(
         text="Coq theorems, each an invariant over arbitrary (finite or endless) sources: shuffle buffer pulled <= yielded + b; round robin never more than b inner iterators open and opened <= b + exhausted; "
              "lazy pool under every schedule inputs taken <= 2T+2 + results yielded; every batch of the ordered concurrent reader holds <= T paths. "
